@@ -149,8 +149,8 @@ def run_verus_crate(cname, cdef, outdir, threads, extra_args=()):
     # before the SMT phase); it is a verdict about the obligation, not a tool failure
     COMPUTE_REFUTED = "simplifies to false"
     refuted = [d for d in diags if COMPUTE_REFUTED in d["message"]]
-    if refuted and len(refuted) == len(diags):
-        pass
+    if refuted and all(COMPUTE_REFUTED in d["message"] or VERIF_FAIL_PAT.search(d["message"]) for d in diags):
+        pass  # (other obligations may fail next to it: those are verification verdicts too)
     elif vr.get("encountered-vir-error") or not vr or (not res.functions and not vr.get("success")):
         msgs = "; ".join(d.get("message", "") for d in diags[:5]) or err[-1500:]
         res.status, res.reason = "undecided", "verus front-end / VIR error: " + msgs
